@@ -48,6 +48,8 @@ var mixes = map[string][]int{
 	"scan":     {24, 10, 6, 0, 20, 16, 6, 4, 2, 6, 1, 1, 2, 1, 0, 0, 0, 0},
 	"stats":    {20, 10, 6, 2, 2, 2, 6, 2, 2, 4, 4, 2, 20, 14, 4, 0, 0, 20},
 	"registry": {10, 6, 6, 0, 2, 2, 4, 4, 4, 2, 0, 0, 4, 0, 4, 30, 8, 0},
+	// writers only, up to the moment of Close: the background flush is then still at work
+	"puts": {80, 8, 6, 0, 0, 0, 6, 0, 0, 0, 0, 0, 0, 0, 0, 0, 0, 0},
 }
 
 type slot struct {
@@ -60,16 +62,25 @@ func key(r *rand.Rand, nkeys int) []byte {
 	return []byte(fmt.Sprintf("k%04d", r.Intn(nkeys)))
 }
 
-func val(r *rand.Rand) []byte {
-	n := 8 + r.Intn(120)
+// values are unique (goroutine.counter prefix) so that a write that reported an error can be
+// recognised if it is visible afterwards; one in twenty is empty
+func val(r *rand.Rand, g int, ctr *int) []byte {
 	if r.Intn(20) == 0 {
-		n = 0
+		return []byte{}
 	}
-	b := make([]byte, n)
-	for i := range b {
-		b[i] = byte('a' + r.Intn(26))
+	*ctr++
+	b := []byte(fmt.Sprintf("g%d.%d|", g, *ctr))
+	n := r.Intn(110)
+	for i := 0; i < n; i++ {
+		b = append(b, byte('a'+r.Intn(26)))
 	}
 	return b
+}
+
+// a write that returned an error
+type failedWrite struct {
+	call, err string
+	k, v      []byte
 }
 
 type iter interface {
@@ -148,6 +159,7 @@ func main() {
 	slots := make([]slot, *gor)
 	counts := make([][]int64, *gor)
 	errs := make([]map[string]int, *gor)
+	failed := make([][]failedWrite, *gor)
 	var stop atomic.Bool
 	var done atomic.Bool
 	phase := atomic.Value{}
@@ -182,6 +194,12 @@ func main() {
 		go func(g int) {
 			defer wg.Done()
 			r := rand.New(rand.NewSource(*seed*1000 + int64(g)))
+			ctr := 0
+			fail := func(call string, err error, k, v []byte) {
+				if err != nil && len(v) > 0 {
+					failed[g] = append(failed[g], failedWrite{call, err.Error(), k, v})
+				}
+			}
 			note := func(op string, err error) {
 				if err != nil {
 					m := err.Error()
@@ -208,7 +226,10 @@ func main() {
 				slots[g].start.Store(time.Now().UnixNano())
 				switch opNames[op] {
 				case "put":
-					note("put", e.Put(key(r, *nkeys), val(r)))
+					k, v := key(r, *nkeys), val(r, g, &ctr)
+					err := e.Put(k, v)
+					note("put", err)
+					fail("put", err, k, v)
 				case "delete":
 					note("delete", e.Delete(key(r, *nkeys)))
 				case "get":
@@ -240,10 +261,16 @@ func main() {
 						if r.Intn(3) == 0 {
 							es = append(es, &wal.Entry{Type: wal.OpTypeDelete, Key: key(r, *nkeys)})
 						} else {
-							es = append(es, &wal.Entry{Type: wal.OpTypePut, Key: key(r, *nkeys), Value: val(r)})
+							es = append(es, &wal.Entry{Type: wal.OpTypePut, Key: key(r, *nkeys), Value: val(r, g, &ctr)})
 						}
 					}
-					note("batch", e.ApplyBatch(es))
+					err := e.ApplyBatch(es)
+					note("batch", err)
+					for _, en := range es {
+						if en.Type == wal.OpTypePut {
+							fail("batch", err, en.Key, en.Value)
+						}
+					}
 				case "rotx", "rwtx":
 					ro := opNames[op] == "rotx"
 					tx, err := e.BeginTransaction(ro)
@@ -252,6 +279,7 @@ func main() {
 						break
 					}
 					_ = tx.IsReadOnly()
+					var txPuts [][2][]byte
 					n := 1 + r.Intn(5)
 					for i := 0; i < n; i++ {
 						switch r.Intn(5) {
@@ -259,9 +287,11 @@ func main() {
 							_, err := tx.Get(key(r, *nkeys))
 							note("tx.get", err)
 						case 2:
-							err := tx.Put(key(r, *nkeys), val(r))
+							k, v := key(r, *nkeys), val(r, g, &ctr)
+							err := tx.Put(k, v)
 							if !ro {
 								note("tx.put", err)
+								txPuts = append(txPuts, [2][]byte{k, v})
 							}
 						case 3:
 							err := tx.Delete(key(r, *nkeys))
@@ -283,7 +313,11 @@ func main() {
 					if r.Intn(4) == 0 {
 						note("rollback", tx.Rollback())
 					} else {
-						note("commit", tx.Commit())
+						err := tx.Commit()
+						note("commit", err)
+						for _, p := range txPuts {
+							fail("commit", err, p[0], p[1])
+						}
 					}
 				case "flush":
 					note("flush", e.FlushImMemTables())
@@ -301,6 +335,9 @@ func main() {
 						_, _ = k, v
 					}
 					_ = e.IsReadOnly()
+					if w := e.GetWAL(); w != nil { // what the replication manager does at start-up
+						_ = w.GetNextSequence()
+					}
 				case "cstats":
 					st, err := e.GetCompactionStats()
 					note("cstats", err)
@@ -326,7 +363,7 @@ func main() {
 						case 0:
 							tx.Get(key(r, *nkeys))
 						case 1:
-							tx.Put(key(r, *nkeys), val(r))
+							tx.Put(key(r, *nkeys), val(r, g, &ctr))
 						case 2:
 							tx.Delete(key(r, *nkeys))
 						}
@@ -393,8 +430,32 @@ func main() {
 	slots[0].op.Store(12)
 	slots[0].start.Store(time.Now().UnixNano())
 	st := e.GetStats()
+	// side check (C06's business, reported as a note): is a write that returned an error
+	// really without effect?  Values are unique, so seeing one means the failed write landed.
+	nFailed := 0
+	checkFailed := func(when string, get func([]byte) ([]byte, error)) {
+		for g := range failed {
+			for _, f := range failed[g] {
+				if v, err := get(f.k); err == nil && string(v) == string(f.v) {
+					fmt.Fprintf(os.Stderr, "STRESS-EFFECT %s call=%s key=%s value=%.24s err=%q\n", when, f.call, f.k, f.v, f.err)
+				}
+			}
+		}
+	}
+	for g := range failed {
+		nFailed += len(failed[g])
+	}
+	checkFailed("live", e.Get)
 	reg.GracefulShutdown(context.Background())
 	cerr := e.Close()
+	if nFailed > 0 && cerr == nil {
+		if e2, err := engine.NewEngineFacade(*dir); err == nil {
+			checkFailed("reopen", e2.Get)
+			e2.Close()
+		} else {
+			fmt.Fprintf(os.Stderr, "STRESS-NOTE reopen failed: %v\n", err)
+		}
+	}
 	slots[0].start.Store(0)
 	done.Store(true)
 
@@ -421,8 +482,8 @@ func main() {
 		ek = append(ek, k)
 	}
 	sort.Strings(ek)
-	fmt.Fprintf(os.Stderr, "STRESS-DONE calls=%d %s sstables=%v flushes=%v close_err=%v\n", all, strings.Join(parts, " "),
-		st["storage_sstable_count"], st["flush_count"], cerr)
+	fmt.Fprintf(os.Stderr, "STRESS-DONE calls=%d %s sstables=%v flushes=%v failed_writes=%d close_err=%v\n", all, strings.Join(parts, " "),
+		st["storage_sstable_count"], st["flush_count"], nFailed, cerr)
 	for _, k := range ek {
 		fmt.Fprintf(os.Stderr, "STRESS-ERR %d x %s\n", em[k], strings.ReplaceAll(k, "\n", " "))
 	}
